@@ -12,8 +12,8 @@ CLAIMED = {
 }
 
 CLAIMED["C04"] = dict(
-    text="Proof: every arithmetic/comparison operator of Vec2/3/4, Color3/4, Shear6, Quat(+,-,scalar) and Matrix22/33/44 (quick: 10 type/element combinations, thorough: the whole table) is extracted from the instantiated template by cxx2c on every run and checked against a generated contract: for every slot of the documented layout, result.slot == scalar op on the corresponding slots (IEEE equality incl. signed zero, NaN-aware), exact frame, compound forms return *this, aliased operands included; equality predicates are the conjunction over all slots.",
-    note="Trusted: clang 14 AST + cxx2c emission rules (differentially validated against the g++ build on every fresh extraction), cbmc 6.11 + cvc5 1.0 FP theory. Integer + - * proved under two's-complement wrap-around. Stream output, operator[]/getValue/setValue/interop constructors and half element type not covered in this revision.",
+    text="Proof: every arithmetic/comparison operator of Vec2/3/4, Color3/4, Shear6, Quat(+,-,scalar) and Matrix22/33/44 (quick: 10 type/element combinations, thorough: the whole table) is extracted from the instantiated template by cxx2c on every run and checked against a generated contract: for every slot of the documented layout, result.slot == scalar op on the corresponding slots (IEEE equality incl. signed zero, NaN-aware), exact frame, compound forms return *this, aliased operands included; equality predicates are the conjunction over all slots. Stream output: operator<< of every class is extracted against a ghost model of std::ostream (a log of insertions) and checked for the token structure the property states - '(' , the components in declaration order separated by white space (single spaces; matrices one row per line), ')' - which found the missing separator in Shear6's operator<<, fixed in /repo (ebe8e1f).",
+    note="Trusted: clang 14 AST + cxx2c emission rules (differentially validated against the g++ build on every fresh extraction), cbmc 6.11 + cvc5 1.0 FP theory. Integer + - * proved under two's-complement wrap-around. The characters libstdc++ prints for one element are outside the verifier (only the token structure is decided); operator[]/getValue/setValue/interop constructors and the half element type are not covered in this revision.",
     technique="CBMC function contracts (dfcc) on mechanically extracted C of the instantiated C++ templates, cvc5 back end",
     ref="6/C04")
 
